@@ -20,7 +20,8 @@ type mqFacts struct {
 	builders    *types.Var
 	buildersLk  *types.Var
 	terminal    map[*ssa.Function]string // terminal report functions -> "Sent"/"Error"
-	extract     *ssa.Function            // takes the head builder off mq.builders
+	extract     *ssa.Function            // the extract step as the queue goroutine calls it (returns the message and an error)
+	popFn       *ssa.Function            // the function that takes the head builder off mq.builders (extract itself, or a helper of it)
 	fns         []*ssa.Function
 	evName      *types.Var
 	sentV, errV int64
@@ -86,6 +87,20 @@ func loadMQ(c *engine.Ctx, rule string) *mqFacts {
 				}
 			}
 		}
+	}
+	// the pop may sit in a helper (`popBuilder`) of the extract step: climb to the function that reports failure
+	// with an error, through single call sites
+	m.popFn = m.extract
+	for i := 0; i < 3 && m.extract != nil; i++ {
+		res := m.extract.Signature.Results()
+		if res.Len() > 0 && res.At(res.Len()-1).Type().String() == "error" {
+			break
+		}
+		sites := c.P.CallSitesOf(m.extract)
+		if len(sites) != 1 {
+			break
+		}
+		m.extract = sites[0].Parent()
 	}
 	m.ok = true
 	return m
